@@ -164,6 +164,18 @@ def run(ctx):
             ctx.violation(dict(kind=kind, cache_size=cs, dt_hint=hint), f"{kind}: {det}", replay=dict(n=n, cache_size=cs, dt_hint=hint))
 
     # ---- Levy-area approximations ---------------------------------------------------------------------
+    # fresh atoms: the Levy-area noise of every node is independent of every increment / space-time noise and of
+    # the Levy-area noise of every other node (W, H not supplied; whole-interval query included)
+    cfgA = cat["A"]
+    hists = [[(0, cfgA.T)], [(0, 4), (2, 6), (0, cfgA.T)], [(2, 4), (4, 8), (0, 2), (0, 6)]]
+    for levy in ("davie", "foster"):
+        for hi, qs in enumerate(hists):
+            for size in ((8, 2), (1, 2), (2, 3, 3)):
+                fails, info = P.check_fresh_atoms(cfgA.shifted(cfgA.offsets()[hi % len(cfgA.offsets())]), qs, size, levy)
+                ctx.case(("fresh-atoms", levy, hi, str(size)), sample=dict(fresh_atoms=dict(levy=levy, history=qs, size=size), info=info))
+                for kind, det in fails[:2]:
+                    ctx.violation(dict(kind=kind, levy=levy), f"{kind}: {det} after history {qs}, size {size}",
+                                  replay=dict(fresh=dict(levy=levy, queries=qs, size=list(size))))
     for levy in ("davie", "foster"):
         fails, worst = P.check_levy(levy, levytab)
         ctx.notes[f"levy_{levy}_worst_rel_err"] = worst
@@ -176,5 +188,10 @@ def run(ctx):
 def replay(path):
     import json
     r = json.load(open(path))["replay"]
+    if isinstance(r, dict) and "fresh" in r:
+        f = r["fresh"]
+        fails, info = P.check_fresh_atoms(BR.catalogue("quick")["A"], [tuple(q) for q in f["queries"]], tuple(f["size"]), f["levy"])
+        print(fails, info)
+        return 1 if fails else 0
     print("re-run the check; replay data:", json.dumps(r)[:500])
     return 0
